@@ -1,6 +1,9 @@
 //! C20 driver: the stand-alone `Window` iterator (`window`: values and the phases read through
-//! its public `phase` field) and the `Windower` (`windower`: `size_hint` before every `next`,
-//! the first `bin` frames of every chunk).  Drivers and loggers only.
+//! its public `phase` field), the `Windower` (`windower`: `size_hint`, `next`, and the other ways an
+//! iterator is advanced -- `nth{k}`, `skip{k}` = `by_ref().skip(k).next()`, `step_by{s,m}` = the first m
+//! items of `by_ref().step_by(s)`; the first `bin` frames of every chunk are logged) and the window
+//! FUNCTIONS evaluated directly (`winfn`: `eval` = `dasp_window::Window::window(p)` for Hann / Rectangle
+//! on f64 / f32 / i16 phases, inside, at the ends of and outside [0, 1]).  Drivers and loggers only.
 use crate::enc::*;
 use dasp_frame::Frame;
 use dasp_sample::Sample;
@@ -91,9 +94,60 @@ where
         }
     };
     out.line(&json!({"ev":"reset","comp":"windower","cfg":echo,"r":r_unit(),"o":{"ok":true,"wv":wv}}));
+    // the first `bin` frames of a chunk, into a buffer allocated beforehand
+    fn head<I: Iterator>(mut c: I, bin: usize, buf: &mut Vec<I::Item>) {
+        for _ in 0..bin {
+            match c.next() {
+                Some(f) => buf.push(f),
+                None => break,
+            }
+        }
+    }
     for op in ops {
         let ev = op["ev"].as_str().unwrap();
         match ev {
+            "nth" | "skip" => {
+                // Iterator::nth(k) directly, or through the Skip adaptor (whose first next() is nth(k))
+                let k = op["a"]["k"].as_u64().unwrap() as usize;
+                let mut chunk: Vec<F> = Vec::with_capacity(bin);
+                let (r, h, _) = measured(|| {
+                    catch(|| {
+                        let got = if ev == "nth" { wr.nth(k) } else { wr.by_ref().skip(k).next() };
+                        match got {
+                            None => false,
+                            Some(c) => {
+                                head(c, bin, &mut chunk);
+                                true
+                            }
+                        }
+                    })
+                });
+                let r = match r {
+                    None => r_panic(),
+                    Some(true) => r_some(enc_frames(&chunk)),
+                    Some(false) => json!({"k":"none","v":[]}),
+                };
+                out.ev(ev, json!({"k": k}), r, json!({"ok": true}), h);
+            }
+            "step_by" => {
+                let st = op["a"]["s"].as_u64().unwrap() as usize;
+                let m = op["a"]["m"].as_u64().unwrap() as usize;
+                let mut chunks: Vec<Vec<F>> = (0..m).map(|_| Vec::with_capacity(bin)).collect();
+                let mut got = 0usize;
+                let (r, h, _) = measured(|| {
+                    catch(|| {
+                        for c in wr.by_ref().step_by(st).take(m) {
+                            head(c, bin, &mut chunks[got]);
+                            got += 1;
+                        }
+                    })
+                });
+                let r = match r {
+                    None => r_panic(),
+                    Some(()) => r_items(Value::Array(chunks[..got].iter().map(|c| enc_frames(c)).collect())),
+                };
+                out.ev("step_by", json!({"s": st, "m": m}), r, json!({"ok": true}), h);
+            }
             "size_hint" => {
                 let (r, h, _) = measured(|| catch(|| wr.size_hint()));
                 let r = match r {
@@ -133,6 +187,66 @@ where
     }
 }
 
+/// phases for the direct evaluation of the window functions: a rational num/den rounded into the
+/// format, then moved by `ulps` units in the last place (floats) / LSBs (integers)
+trait PhaseArg: Enc {
+    fn from_ratio(num: i64, den: i64) -> Self;
+    fn step(self, ulps: i64) -> Self;
+}
+fn key64(b: i64) -> i64 {
+    // sign-magnitude bit pattern <-> monotone integer (an involution)
+    if b < 0 { i64::MIN - b } else { b }
+}
+impl PhaseArg for f64 {
+    fn from_ratio(num: i64, den: i64) -> f64 {
+        num as f64 / den as f64
+    }
+    fn step(self, ulps: i64) -> f64 {
+        f64::from_bits(key64(key64(self.to_bits() as i64) + ulps) as u64)
+    }
+}
+impl PhaseArg for f32 {
+    fn from_ratio(num: i64, den: i64) -> f32 {
+        (num as f64 / den as f64) as f32
+    }
+    fn step(self, ulps: i64) -> f32 {
+        let key = |b: i32| if b < 0 { i32::MIN - b } else { b };
+        f32::from_bits(key(key(self.to_bits() as i32) + ulps as i32) as u32)
+    }
+}
+impl PhaseArg for i16 {
+    fn from_ratio(num: i64, den: i64) -> i16 {
+        (num as f64 / den as f64 * 32768.0).round().clamp(-32768.0, 32767.0) as i16
+    }
+    fn step(self, ulps: i64) -> i16 {
+        (self as i64 + ulps).clamp(-32768, 32767) as i16
+    }
+}
+
+fn winfn<S, W>(out: &mut Out, cfg: &Value, ops: &[Value])
+where
+    S: PhaseArg,
+    W: WindowType<S, Output = S>,
+{
+    out.line(&json!({"ev":"reset","comp":"winfn","cfg":cfg,"r":r_unit(),"o":{"ok":true}}));
+    for op in ops {
+        assert_eq!(op["ev"], "eval");
+        let a = &op["a"];
+        // either an explicit phase `p` (num/den then only name the rational it is meant to be, den = 0: none)
+        // or num/den (+ ulps)
+        let num = a["num"].as_i64().unwrap_or(0);
+        let den = a["den"].as_i64().unwrap_or(0);
+        let ulps = a["ulps"].as_i64().unwrap_or(0);
+        let p: S = if a["p"].is_null() { S::from_ratio(num, den).step(ulps) } else { S::dec(&a["p"]) };
+        let (r, h, _) = measured(|| catch(|| W::window(p)));
+        let r = match r {
+            None => r_panic(),
+            Some(v) => r_val(v.enc()),
+        };
+        out.ev("eval", json!({"p": p.enc(), "num": num, "den": den, "ulps": ulps}), r, json!({"ok": true}), h);
+    }
+}
+
 pub fn exec(out: &mut Out, ex: &[Value]) {
     let comp = ex[0]["comp"].as_str().unwrap();
     let cfg = &ex[0]["cfg"];
@@ -146,6 +260,15 @@ pub fn exec(out: &mut Out, ex: &[Value]) {
             ("rect", "f64") => take_window::<f64, Rectangle>(out, cfg, ops),
             ("rect", "f32") => take_window::<f32, Rectangle>(out, cfg, ops),
             _ => panic!("unsupported window {} {}", kind, fmt),
+        },
+        "winfn" => match (kind, fmt) {
+            ("hann", "f64") => winfn::<f64, Hann>(out, cfg, ops),
+            ("hann", "f32") => winfn::<f32, Hann>(out, cfg, ops),
+            ("hann", "i16") => winfn::<i16, Hann>(out, cfg, ops),
+            ("rect", "f64") => winfn::<f64, Rectangle>(out, cfg, ops),
+            ("rect", "f32") => winfn::<f32, Rectangle>(out, cfg, ops),
+            ("rect", "i16") => winfn::<i16, Rectangle>(out, cfg, ops),
+            _ => panic!("unsupported window function {} {}", kind, fmt),
         },
         "windower" => {
             let ch = cfg["ch"].as_u64().unwrap_or(1);
@@ -240,11 +363,76 @@ pub fn gen(rng: &mut Rng, tier: &str, execs: &mut Vec<Vec<Value>>) {
                 )
             })
             .collect();
-        let mut ex = vec![json!({"ev":"reset","comp":"windower","cfg":{"kind":kind,"fmt":fmt,"ch":ch,"b":b,"h":h,"frames":frames}})];
+        let reset = json!({"ev":"reset","comp":"windower","cfg":{"kind":kind,"fmt":fmt,"ch":ch,"b":b,"h":h,"frames":frames}});
+        let mut ex = vec![reset.clone()];
         // the driver just keeps asking, generously past any possible end (no chunk count is computed here)
         for _ in 0..(l / h + 3) {
             ex.push(json!({"ev":"size_hint","a":{}}));
             ex.push(json!({"ev":"next","a":{}}));
+        }
+        execs.push(ex);
+        // the same windower advanced through nth / skip / step_by, mixed with next, a size hint after each.
+        // `span` = how many hops fit between the first and the last possible chunk start: jumps of about that
+        // size land on, just before and just past the last chunk (also the one that ends exactly at frame L)
+        let span = (l.saturating_sub(b) / h) as u64;
+        for v in 0..3u64 {
+            let mut ex = vec![reset.clone(), json!({"ev":"size_hint","a":{}})];
+            let mut left = span + 3;
+            let mut first = true;
+            while left > 0 {
+                let jump = if first && v < 2 {
+                    span.saturating_sub(v) // nth(span) / nth(span - 1) from the start
+                } else {
+                    match rng.below(4) {
+                        0 => 0,
+                        1 => left.saturating_sub(3), // onto the last chunk if nothing else was consumed
+                        _ => rng.below(left.min(4) + 1),
+                    }
+                };
+                let op = match (if first { v } else { rng.below(4) }, jump) {
+                    (0, j) => json!({"ev":"nth","a":{"k":j}}),
+                    (1, j) => json!({"ev":"skip","a":{"k":j}}),
+                    (2, j) => json!({"ev":"step_by","a":{"s": 1 + rng.below(3), "m": 1 + j.min(4)}}),
+                    _ => json!({"ev":"next","a":{}}),
+                };
+                first = false;
+                ex.push(op);
+                ex.push(json!({"ev":"size_hint","a":{}}));
+                left = left.saturating_sub(jump + 1);
+            }
+            ex.push(json!({"ev":"next","a":{}}));
+            ex.push(json!({"ev":"size_hint","a":{}}));
+            execs.push(ex);
+        }
+    }
+    // the window functions evaluated directly: the points k/24, i/(n-1), both ends, one ulp around them,
+    // arbitrary phases in [0, 1]; the rectangle also well outside [0, 1]
+    for (kind, fmt) in [("hann", "f64"), ("hann", "f32"), ("hann", "i16"), ("rect", "f64"), ("rect", "f32"), ("rect", "i16")] {
+        let mut ex = vec![json!({"ev":"reset","comp":"winfn","cfg":{"kind":kind,"fmt":fmt}})];
+        let ev = |num: i64, den: i64, ulps: i64| json!({"ev":"eval","a":{"num":num,"den":den,"ulps":ulps}});
+        for &(n, d) in &[(0i64, 1i64), (1, 2), (1, 1)] {
+            for u in -1..=1 {
+                ex.push(ev(n, d, u));
+            }
+        }
+        for _ in 0..(if thorough { 160 } else { 40 }) {
+            let den = match rng.below(4) {
+                0 => 24,
+                1 => 1 + rng.below(48) as i64,
+                2 => 1 << rng.below(12),
+                _ => 1 + rng.below(4096) as i64,
+            };
+            let num = if kind == "rect" && rng.chance(1, 3) { rng.range(-2 * den, 3 * den) } else { rng.range(0, den) };
+            ex.push(ev(num, den, if rng.chance(1, 4) { rng.range(-3, 3) } else { 0 }));
+        }
+        if fmt != "i16" {
+            // full-precision phases in [0, 1) (and, for the rectangle, in [-2, 3))
+            for _ in 0..(if thorough { 40 } else { 10 }) {
+                let u = (rng.next() >> 11) as f64 / (1u64 << 53) as f64;
+                let x = if kind == "rect" { 5.0 * u - 2.0 } else { u };
+                let p = if fmt == "f32" { f32f(x as f32) } else { f64f(x) };
+                ex.push(json!({"ev":"eval","a":{"p":p,"num":0,"den":0,"ulps":0}}));
+            }
         }
         execs.push(ex);
     }
